@@ -18,7 +18,21 @@
 #include "tickit-mockterm.h"
 #include <sanitizer/asan_interface.h>
 
+#include <fcntl.h>
+#include <sys/time.h>
+#include <sys/select.h>
+
 int __lsan_do_recoverable_leak_check(void);
+
+/* the library's clock (engines.d/C08.json links with -Wl,--wrap=gettimeofday): it stands still unless a `tick`
+ * line advances it, so that the inter-byte timeout of the terminal's input is reached without waiting */
+static long fake_ms;
+int __wrap_gettimeofday(struct timeval *tv, void *tz)
+{
+  (void)tz;
+  tv->tv_sec = 1000000 + fake_ms / 1000; tv->tv_usec = (fake_ms % 1000) * 1000;
+  return 0;
+}
 
 #define MAXO 48
 #define MAXB 64
@@ -32,6 +46,8 @@ static int Wparent[MAXO]; static int Wdetached[MAXO]; static int Wconsumed[MAXO]
 static TickitPen *P[MAXO]; static int Pref[MAXO]; static int nP;
 static TickitString *S[MAXO]; static int Sref[MAXO]; static int nS;
 static TickitRenderBuffer *B[MAXO]; static int Bref[MAXO]; static int nB;
+
+static int in_fd[2] = { -1, -1 };   /* `newin`: the terminal reads from in_fd[0] */
 
 struct act { char kind; int arg; };
 struct beh { int used; int w; int ev; int ret; int id; int nacts; struct act acts[MAXA]; };
@@ -181,6 +197,52 @@ static int on_pen_event(TickitPen *pen, TickitEventFlags flags, void *info, void
   return 0;
 }
 
+/* ---- handlers bound on the terminal itself, and its input ------------------------------------- */
+
+struct tbeh { int used; int ev; int ret; int id; int nacts; struct act acts[MAXA]; };
+static struct tbeh TBEH[MAXB]; static int nTBEH;
+
+static int on_term_event(TickitTerm *term, TickitEventFlags flags, void *info, void *user)
+{
+  (void)term;
+  if(!(flags & TICKIT_EV_FIRE)) return 0;
+  struct tbeh *b = user;
+  int k = (int)(b - TBEH);
+  if(b->ev == 0) obs("T%dk ", k);
+  else { TickitMouseEventInfo *m = info; obs("T%dm%x@%d,%d ", k, (unsigned)m->type, m->line, m->col); }
+  int ret = b->ret, n = b->nacts;
+  struct act acts[MAXA];
+  memcpy(acts, b->acts, sizeof acts);
+  for(int i = 0; i < n; i++) {
+    if(acts[i].kind == 't') { if(heldt()) { tt_refs--; tickit_term_unref(tt); } }
+    else if(acts[i].kind == 'T') { if(heldt()) { tt_refs++; tickit_term_ref(tt); } }
+    else simple_op(acts[i].kind, acts[i].arg, NULL);
+  }
+  return ret;
+}
+
+/* input tokens to bytes (the decoding is fixed in Model/LifeTop.lean `Tok`): a = 'a', A = ESC b, U = ESC [ A,
+ * E = ESC, P/D/R<line>,<col> = X10 mouse report ESC [ M b x y (button 1 press / drag, release) */
+static size_t tokens_to_bytes(int argc, char **argv, int from, char *out, size_t cap)
+{
+  size_t n = 0;
+  for(int k = from; k < argc && n + 8 < cap; k++) {
+    const char *t = argv[k];
+    int line = 0, col = 0;
+    if(strcmp(t, "a") == 0) out[n++] = 'a';
+    else if(strcmp(t, "A") == 0) { out[n++] = 0x1b; out[n++] = 'b'; }
+    else if(strcmp(t, "U") == 0) { out[n++] = 0x1b; out[n++] = '['; out[n++] = 'A'; }
+    else if(strcmp(t, "E") == 0) out[n++] = 0x1b;
+    else if((t[0] == 'P' || t[0] == 'D' || t[0] == 'R') && sscanf(t + 1, "%d,%d", &line, &col) == 2) {
+      out[n++] = 0x1b; out[n++] = '['; out[n++] = 'M';
+      out[n++] = t[0] == 'P' ? 32 : t[0] == 'D' ? 64 : 35;
+      out[n++] = (char)(33 + col); out[n++] = (char)(33 + line);
+    }
+    else return (size_t)-1;
+  }
+  return n;
+}
+
 /* ---- engine ---------------------------------------------------------------------------------- */
 
 static void engine_begin(void)
@@ -192,6 +254,8 @@ static void engine_begin(void)
   memset(Wref, 0, sizeof Wref); memset(Pref, 0, sizeof Pref); memset(Sref, 0, sizeof Sref); memset(Bref, 0, sizeof Bref);
   memset(BEH, 0, sizeof BEH);
   memset(PBEH, 0, sizeof PBEH); nPBEH = 0;
+  memset(TBEH, 0, sizeof TBEH); nTBEH = 0;
+  in_fd[0] = in_fd[1] = -1; fake_ms = 0;
 }
 
 static void engine_end(void) { }
@@ -218,6 +282,7 @@ static int __attribute__((noinline)) leak_check(void)
   memset(W, 0, sizeof W); memset(P, 0, sizeof P); memset(S, 0, sizeof S); memset(B, 0, sizeof B);
   memset(BEH, 0, sizeof BEH);
   memset(PBEH, 0, sizeof PBEH);
+  memset(TBEH, 0, sizeof TBEH);
   return __lsan_do_recoverable_leak_check() ? 1 : 0;
 }
 
@@ -254,11 +319,18 @@ static void engine_op(int argc, char **argv)
 {
   const char *op = argv[0];
 #define A(k) (argc > (k) ? atoi(argv[k]) : 0)
-  if(strcmp(op, "new") == 0 || strcmp(op, "newmock") == 0) {
+  if(strcmp(op, "new") == 0 || strcmp(op, "newmock") == 0 || strcmp(op, "newin") == 0) {
     int lines = argc > 1 ? A(1) : 10, cols = argc > 2 ? A(2) : 20;
     if(strcmp(op, "newmock") == 0) {
       tt = (TickitTerm *)tickit_mockterm_new(lines, cols);
       is_mock = 1;
+    }
+    else if(strcmp(op, "newin") == 0) {
+      if(pipe(in_fd) != 0) { obs("bad-op"); return; }
+      fcntl(in_fd[0], F_SETFL, O_NONBLOCK);
+      tt = tickit_term_build(&(struct TickitTermBuilder){ .termtype = "xterm", .open = TICKIT_OPEN_FDS,
+          .input_fd = in_fd[0], .output_fd = -1, .output_func = outf });
+      tickit_term_set_size(tt, lines, cols);
     }
     else {
       tt = tickit_term_build(&(struct TickitTermBuilder){ .termtype = "xterm", .output_func = outf });
@@ -424,6 +496,47 @@ static void engine_op(int argc, char **argv)
     if(!heldt()) { obs("skip"); dump(); return; }
     tt_refs--; tickit_term_unref(tt); obs("ok"); dump(); return;
   }
+  if(strcmp(op, "tbind") == 0 && argc >= 3) {
+    if(!heldt() || nTBEH >= MAXB) { obs("skip"); dump(); return; }
+    struct tbeh *b = &TBEH[nTBEH++];
+    b->used = 1; b->ev = strcmp(argv[1], "mouse") == 0; b->ret = A(2); b->nacts = 0;
+    for(int k = 3; k < argc && b->nacts < MAXA; k++) {
+      b->acts[b->nacts].kind = argv[k][0];
+      b->acts[b->nacts].arg = atoi(argv[k] + 1);
+      b->nacts++;
+    }
+    b->id = tickit_term_bind_event(tt, b->ev ? TICKIT_TERM_ON_MOUSE : TICKIT_TERM_ON_KEY, 0, on_term_event, b);
+    obs("id=%d", b->id); dump(); return;
+  }
+  if(strcmp(op, "tunbind") == 0 && argc == 2) {
+    /* the application unbinds what it has bound */
+    int found = -1;
+    for(int k = 0; k < nTBEH; k++) if(TBEH[k].used && TBEH[k].id == A(1)) found = k;
+    if(!heldt() || found < 0) { obs("skip"); dump(); return; }
+    TBEH[found].used = 0;
+    tickit_term_unbind_event_id(tt, A(1));
+    obs("ok"); dump(); return;
+  }
+  if(strcmp(op, "tpush") == 0 || strcmp(op, "tread") == 0 || strcmp(op, "twait") == 0 || strcmp(op, "twaitv") == 0) {
+    char bytes[512];
+    size_t n = tokens_to_bytes(argc, argv, 1, bytes, sizeof bytes);
+    if(n == (size_t)-1) { obs("bad-op"); return; }
+    if(!heldt() || (op[1] != 'p' && in_fd[0] < 0)) { obs("skip"); dump(); return; }
+    if(op[1] == 'p') tickit_term_input_push_bytes(tt, bytes, n);
+    else {
+      if(n && write(in_fd[1], bytes, n) != (ssize_t)n) { obs("bad-op"); return; }
+      if(op[1] == 'r') tickit_term_input_readable(tt);
+      else if(op[5] == 'v') tickit_term_input_wait_tv(tt, &(struct timeval){ 0, 0 });
+      else tickit_term_input_wait_msec(tt, 0);
+    }
+    obs("ok"); dump(); return;
+  }
+  if(strcmp(op, "tcheck") == 0) {
+    if(!heldt()) { obs("skip"); dump(); return; }
+    int r = tickit_term_input_check_timeout_msec(tt);
+    obs("ret=%d", r); dump(); return;
+  }
+  if(strcmp(op, "tick") == 0 && argc == 2) { fake_ms += A(1); obs("ok"); dump(); return; }
   /* ---- strings */
   if(strcmp(op, "str") == 0 && argc == 2) {
     unsigned char *bytes; long n = hex_decode(argv[1], &bytes);
